@@ -26,11 +26,20 @@ theory atom equals its root formula.
                         the program's atoms is a stable model of the program with each theory atom *replaced by its
                         truth value in `X` itself* — exactly how the specification `TSM` reads a `&tel` body literal
                         (`BLit.holds` evaluates it on the total trace in both worlds).
+  * `placeholder_life`  the life of the obligation of a `>` beyond the horizon (model `nextTranslate` / `life` of
+                        `Next.do_translate` and the todo list, TelModel/NextLife.lean; every call of the real method is compared
+                        with the model): after the `translate` call of horizon h the pair (formula, step) is finished iff its
+                        target state `step + n` exists; while it does not, the placeholder carries the operator's end-of-trace
+                        value and the pair is queued under its own step; it is resolved — equated with the argument's literal at
+                        `step + n`, set free — in exactly one call, the one of horizon `step + n`.  This is why `eqn` may read a
+                        next formula as "the argument at `step + n` if that state exists, else the end-of-trace value" at every
+                        horizon.
 -/
 import TelProofs.Tseitin
 import TelProofs.DocEq
 import TelProofs.Meta.DefExt
 import TelProofs.ClauseProofs
+import TelProofs.NextLifeProofs
 
 namespace TelProofs.C03
 open TelSpec TelModel TelProofs
@@ -114,5 +123,16 @@ example : GoodAtoms (.unt (.atom "a") (.seqNext true (.prev 2 false (.atom "b"))
 /-- strong next is false and weak next is true at the last state -/
 example : docSem 2 (fun _ _ => true) (.next 1 false (.atom "a")) 2 = false := by rfl
 example : docSem 2 (fun _ _ => true) (.next 1 true (.atom "a")) 2 = true := by rfl
+
+/-- **life cycle of a next formula's placeholder** across the horizons `h0, h0+1, …` of a run (first translated at horizon `h0`) -/
+theorem placeholder_life (n : Nat) (weak : Bool) (step h0 : Nat) (k : Nat) :
+    let (st, todo, act) := life n weak step h0 k
+    (st = .done ↔ step + n ≤ h0 + k) ∧ (todo = if step + n ≤ h0 + k then none else some step) ∧
+    (act = .resolve (step + n) ↔ (h0 < step + n ∧ h0 + k = step + n)) :=
+  TelProofs.placeholder_life n weak step h0 k
+
+/-- non-vacuity: `2 > p` first translated at step 0 when the horizon is 1 (reached through `< 2 > p` at step 1) -/
+example : (List.range 4).map (fun k => (life 2 false 0 1 k).2.2) =
+    [.placeholder false 0, .resolve 2, .nothing, .nothing] := by decide
 
 end TelProofs.C03
